@@ -84,7 +84,7 @@ static inline int cur_char(char_stream_t cs) {
 }
 
 static inline int next_char(char_stream_t cs) {
-  assert(cs->a[cs->i] != '\n');
+  assert(cs->a[cs->i] != '\0');
   cs->i++;
   return cur_char(cs);
 }
